@@ -2,6 +2,7 @@ package timing
 
 import (
 	"fmt"
+	"strings"
 	"testing"
 	"time"
 
@@ -96,4 +97,41 @@ func report(t *testing.T, rec *stats.Rec, what string) {
 		return
 	}
 	t.Fatalf("%s", what)
+}
+
+// TestC15_DeadHolderPolled (always on): a writer dies right after its locks were granted (maxTime = lock TTL 1 s);
+// another writer keeps retrying the same item every ~150 ms while that TTL runs; once it has passed, a writer
+// must get through. A lock check that refreshes the lock it inspects would keep the dead holder's lock alive.
+func TestC15_DeadHolderPolled(t *testing.T) {
+	rec := stats.For("C15")
+	for _, max := range []time.Duration{time.Second, 2 * time.Second} {
+		w := func(k int, m time.Duration) partSpec {
+			return partSpec{MaxTime: m, CtxMode: "none", Order: "asis",
+				Prog: txh.TxnProg{Mode: sop.ForWriting, End: "commit", Ops: []txh.Op{{S: 0, Kind: "update", K: k, Tag: fmt.Sprintf("k%d", k), Size: 10}}}}
+		}
+		c := caseSpec{HashMod: 1, UUIDSeed: 77, Scenario: "dead", Site: 1, Poll: true, Stall: max + 3*time.Second, Barrier: true,
+			Stores: []txh.StoreOpts{{Name: "st0", Slot: 4, Unique: true, Placement: 0}},
+			Seed:   [][]int{{0, 1, 2, 3, 4, 5}},
+			Parts:  []partSpec{w(2, max), w(2, 300*time.Millisecond)},
+		}
+		var v verdict
+		var cr caseResult
+		for attempt := 0; attempt < 2; attempt++ {
+			cr = runCase(c)
+			if cr.HarnessErr != nil {
+				t.Fatalf("%v", cr.HarnessErr)
+			}
+			if !cr.HolderStalled {
+				t.Fatalf("HARNESS-ERROR the holder never reached its stall point: %s", renderResults(c, cr))
+			}
+			v = judge(c, cr)
+			if len(v.hard) == 0 {
+				break
+			}
+		}
+		if len(v.hard) > 0 {
+			t.Fatalf("C15 violated (twice): a dead lock holder (maxTime %v) polled %d times by a retrying writer still blocks writers after its lock TTL: %s\n%s", max, cr.Polls, strings.Join(v.hard, "; "), renderResults(c, cr))
+		}
+		rec.Case(c.render(), true, "deadHolderPolledWhileItsLocksRanOut", "scenario:dead")
+	}
 }
